@@ -363,7 +363,30 @@ func TestVerifC14bPool(t *testing.T) {
 		}()
 
 		nActions := 0
-		knownHit := false
+		// some workers that are already in service when the sequence starts
+		nready := rapid.IntRange(0, 2).Draw(t, "readyWorkers")
+		for k := 0; k < nready; k++ {
+			it := types[rapid.IntRange(0, 1).Draw(t, "readyType")]
+			wp.Create(it)
+			for {
+				wp.mtx.Lock()
+				n := len(wp.creating)
+				wp.mtx.Unlock()
+				if n == 0 {
+					break
+				}
+				time.Sleep(50 * time.Microsecond)
+			}
+			h.mu.Lock()
+			inst := h.insts[len(h.insts)-1]
+			inst.booted = true
+			h.mu.Unlock()
+			wp.mtx.Lock()
+			wkr := wp.workers[inst.id]
+			wp.mtx.Unlock()
+			wkr.ProbeAndUpdate()
+			h.logf("ready(%s,%s)", inst.id, it.Name)
+		}
 		workerOf := func(inst *bInst) *worker {
 			wp.mtx.Lock()
 			defer wp.mtx.Unlock()
@@ -438,12 +461,6 @@ func TestVerifC14bPool(t *testing.T) {
 				return
 			}
 			sort.Strings(poisoned)
-			detail := fmt.Sprintf("closed remoteRunner kept in %v after: %s", poisoned, strings.Join(h.hist, " | "))
-			if h.labels["runner-readded-after-close"] && stats.Known("pool-double-close-runner", detail) {
-				knownHit = true
-				h.labels["known-double-close"] = true
-				return
-			}
 			t.Fatalf("R3: the pool keeps a remoteRunner that was already closed (the next closeRunner/worker.Close for it panics: close of closed channel): %v\nhistory:\n%s",
 				poisoned, strings.Join(h.hist, "\n"))
 		}
@@ -505,7 +522,7 @@ func TestVerifC14bPool(t *testing.T) {
 				checkRunning("after step")
 			},
 			"create": func(t *rapid.T) {
-				if len(existing()) >= 3 {
+				if len(existing()) >= 4 {
 					t.Skip()
 				}
 				it := types[rapid.IntRange(0, 1).Draw(t, "type")]
@@ -538,6 +555,9 @@ func TestVerifC14bPool(t *testing.T) {
 			},
 			"reportBroken": func(t *rapid.T) {
 				inst := pickInst(t)
+				if rapid.IntRange(0, 2).Draw(t, "really") > 0 {
+					t.Skip()
+				}
 				h.mu.Lock()
 				inst.broken = true
 				h.mu.Unlock()
@@ -776,7 +796,7 @@ func TestVerifC14bPool(t *testing.T) {
 					}
 				}
 				if readded {
-					h.labels["runner-readded-after-close"] = true
+					h.labels["runner-closed-while-start-in-flight"] = true
 				}
 				h.labels["detach-returned"] = true
 				h.logf("detachReturn(%s,%s) readdedAfterClose=%v", p.inst.id, p.uuid, readded)
@@ -898,7 +918,6 @@ func TestVerifC14bPool(t *testing.T) {
 		}
 		actions["probe3"] = actions["probe"]
 		t.Repeat(actions)
-		_ = knownHit
 		labels := make([]string, 0, len(h.labels))
 		for l := range h.labels {
 			labels = append(labels, l)
